@@ -162,6 +162,9 @@ pub struct Clo {
     env: Env,
     var: Id,
     body: Rc<C>,
+    // when present, instantiation calls this instead of evaluating `body` (codomain of an
+    // inferred lambda type: the type of the lambda's body re-inferred with the argument bound)
+    fun: Option<Rc<dyn Fn(&Nbe, Val) -> Result<V, Fail>>>,
 }
 
 // Lazy value with memo.
@@ -223,6 +226,52 @@ pub fn var_val(id: Id) -> Val {
     done(V::Stuck(Rc::new(Stuck::Var(id))))
 }
 
+
+// Identifiers occurring free in a term (binders of the term itself excluded).
+fn free_ids(c: &C, bound: &mut Vec<Id>, out: &mut Vec<Id>) {
+    match c {
+        C::Type | C::Int | C::Bool | C::True | C::False | C::Lit(_) | C::Opaque(_) => {}
+        C::Var(x) => {
+            if !bound.contains(x) && !out.contains(x) {
+                out.push(*x);
+            }
+        }
+        C::Lam(x, _, d, b) | C::Pi(x, _, d, b) => {
+            free_ids(d, bound, out);
+            bound.push(*x);
+            free_ids(b, bound, out);
+            bound.pop();
+        }
+        C::App(f, a) => {
+            free_ids(f, bound, out);
+            free_ids(a, bound, out);
+        }
+        C::Let(defs, body) => {
+            for (x, _, _) in defs {
+                bound.push(*x);
+            }
+            for (_, a, d) in defs {
+                free_ids(a, bound, out);
+                free_ids(d, bound, out);
+            }
+            free_ids(body, bound, out);
+            for _ in defs {
+                bound.pop();
+            }
+        }
+        C::Neg(a) => free_ids(a, bound, out),
+        C::Bin(_, a, b) => {
+            free_ids(a, bound, out);
+            free_ids(b, bound, out);
+        }
+        C::If(a, b, c) => {
+            free_ids(a, bound, out);
+            free_ids(b, bound, out);
+            free_ids(c, bound, out);
+        }
+    }
+}
+
 pub struct Nbe {
     pub fuel: Cell<u64>,
     pub fresh: Cell<Id>,
@@ -246,6 +295,41 @@ impl Nbe {
         let f = self.fresh.get();
         self.fresh.set(f + 1);
         f
+    }
+
+    // Two suspended computations are certainly equal when they are the same thunk, or the same
+    // piece of syntax under environments that agree (up to conversion) on its free variables.
+    // Without this, comparing two occurrences of a recursively defined type family at a neutral
+    // index (`pad n` with `pad n`) would unfold the family for ever.
+    fn same_unforced(&self, a: &Val, b: &Val) -> R<bool> {
+        if Rc::ptr_eq(a, b) {
+            return Ok(true);
+        }
+        let pair = match (&*a.state.borrow(), &*b.state.borrow()) {
+            (TState::Delayed(e1, c1), TState::Delayed(e2, c2)) if Rc::ptr_eq(c1, c2) => Some((e1.clone(), e2.clone(), c1.clone())),
+            _ => None,
+        };
+        let Some((e1, e2, c)) = pair else { return Ok(false) };
+        let mut ids = vec![];
+        free_ids(&c, &mut vec![], &mut ids);
+        for id in ids {
+            match (e1.get(id), e2.get(id)) {
+                (Some(x), Some(y)) => {
+                    if Rc::ptr_eq(&x, &y) {
+                        continue;
+                    }
+                    self.tick()?;
+                    let (vx, vy) = (self.force(&x)?, self.force(&y)?);
+                    // only cheap, first-order agreement is looked for here
+                    if matches!(vx, V::Lam(..) | V::Pi(..)) || !self.conv(&vx, &vy)? {
+                        return Ok(false);
+                    }
+                }
+                (None, None) => {}
+                _ => return Ok(false),
+            }
+        }
+        Ok(true)
     }
 
     pub fn force(&self, t: &Val) -> R<V> {
@@ -306,8 +390,8 @@ impl Nbe {
                 Some(t) => self.force(&t)?,
                 None => V::Stuck(Rc::new(Stuck::Var(*id))),
             },
-            C::Lam(id, im, _, b) => V::Lam(*im, Clo { env: env.clone(), var: *id, body: b.clone() }),
-            C::Pi(id, im, d, b) => V::Pi(*im, delayed(env, d), Clo { env: env.clone(), var: *id, body: b.clone() }),
+            C::Lam(id, im, _, b) => V::Lam(*im, Clo { env: env.clone(), var: *id, body: b.clone(), fun: None }),
+            C::Pi(id, im, d, b) => V::Pi(*im, delayed(env, d), Clo { env: env.clone(), var: *id, body: b.clone(), fun: None }),
             C::App(f, a) => {
                 let fv = self.eval(f, env)?;
                 self.apply(fv, delayed(env, a))?
@@ -342,6 +426,10 @@ impl Nbe {
     }
 
     pub fn inst(&self, clo: &Clo, a: Val) -> R<V> {
+        if let Some(f) = &clo.fun {
+            self.tick()?;
+            return f(self, a);
+        }
         self.eval(&clo.body, &clo.env.with(clo.var, a))
     }
 
@@ -378,6 +466,9 @@ impl Nbe {
                     if !self.conv(f1, f2)? {
                         return Ok(false);
                     }
+                    if self.same_unforced(a1, a2)? {
+                        return Ok(true);
+                    }
                     let (x, y) = (self.force(a1)?, self.force(a2)?);
                     self.conv(&x, &y)?
                 }
@@ -387,9 +478,14 @@ impl Nbe {
                     if !self.conv(c1, c2)? {
                         return Ok(false);
                     }
-                    let (x, y) = (self.force(t1)?, self.force(t2)?);
-                    if !self.conv(&x, &y)? {
-                        return Ok(false);
+                    if !self.same_unforced(t1, t2)? {
+                        let (x, y) = (self.force(t1)?, self.force(t2)?);
+                        if !self.conv(&x, &y)? {
+                            return Ok(false);
+                        }
+                    }
+                    if self.same_unforced(e1, e2)? {
+                        return Ok(true);
                     }
                     let (x, y) = (self.force(e1)?, self.force(e2)?);
                     self.conv(&x, &y)?
@@ -526,11 +622,13 @@ impl<'n> Checker<'n> {
                 self.expect(&td, &V::Type, "lambda domain")?;
                 let dv = delayed(&ctx.env, d);
                 let ctx2 = ctx.bind(*id, dv.clone(), var_val(*id));
-                let tb = self.infer(b, &ctx2)?;
-                // abstract the body type over the parameter: read it back and close it
-                let mut q = Quote::new(self.nbe);
-                let body_ty = q.quote(&tb)?;
-                V::Pi(*im, dv, Clo { env: ctx.env.clone(), var: *id, body: body_ty })
+                self.infer(b, &ctx2)?;
+                // The codomain as a function of the argument: the type of the body with the
+                // parameter bound to that argument. (Reading the body type back and closing it
+                // would unfold a recursively defined type family at a neutral index for ever.)
+                let (ctx_c, b_c, dv_c, id_c) = (ctx.clone(), b.clone(), dv.clone(), *id);
+                let fun: Rc<dyn Fn(&Nbe, Val) -> Result<V, Fail>> = Rc::new(move |nbe: &Nbe, arg: Val| Checker::new(nbe).infer(&b_c, &ctx_c.bind(id_c, dv_c.clone(), arg)));
+                V::Pi(*im, dv, Clo { env: ctx.env.clone(), var: *id, body: b.clone(), fun: Some(fun) })
             }
             C::Pi(id, _, d, b) => {
                 self.rule("pi");
